@@ -39,7 +39,8 @@ Conc(s, tok) == IF s = "ID" THEN tok.ID ELSE IF s = "TID" THEN tok.TID ELSE IF s
 ConcSeq(q, tok) == [k \in 1..Len(q) |-> Conc(q[k], tok)]
 MeasuredAsBuilt(g, tok, mm) ==
     LET b == Build(g) IN
-    /\ mm.tag = b.tag /\ mm.cls = b.cls /\ mm.via = b.via /\ mm.tid = Conc(b.tid, tok)
+    /\ mm.tag = b.tag /\ mm.via = b.via /\ mm.tid = Conc(b.tid, tok)
+    /\ (mm.tag = "iframe" \/ mm.cls = b.cls)       \* a tweet class on an iframe is noise the driver adds (no rule reads it)
     /\ mm.url.scheme = b.url.scheme /\ mm.url.auth = b.url.auth /\ mm.url.lead = b.url.lead
     /\ mm.url.user = b.url.user /\ mm.url.host = b.url.host
     /\ mm.url.path = ConcSeq(b.url.path, tok)
